@@ -10,10 +10,10 @@ META = {
     'bounds': {
         'quick': 'whole expand(): all ASCII strings len<=2 under 3 markup configurations (default, jsx, wrap text list); stylesheet '
                  'tokenizer+parser: all ASCII strings len<=2 in both modes; whole expand() on all sequences '
-                 'of <=3 pieces from a 34-piece markup alphabet / 26-piece stylesheet alphabet under the default configurations and '
-                 'of <=2 pieces under 14 more configurations (jsx, wrap text, BEM+comments, context, xml, pug, haml, slim, xsl, stylus, '
+                 'of <=3 pieces from a 37-piece markup alphabet / 26-piece stylesheet alphabet under the default configurations and '
+                 'of <=2 pieces under 15 more configurations (jsx, wrap text, BEM+comments, context, xml, pug, haml, slim, xsl, stylus, '
                  'json, value/section context)',
-        'thorough': 'len<=2 under all 11 markup configurations, len 3 for default markup; stylesheet parser len<=3; <=3 pieces under all 16 configurations',
+        'thorough': 'len<=2 under all 11 markup configurations, len 3 for default markup; stylesheet parser len<=3; <=3 pieces under all 17 configurations',
     },
     'outside_claim': ['whole-expand of stylesheet abbreviations with symbolic characters (the fuzzy matcher computes a float score per '
                       'snippet key: the solver does not return; measured). Stylesheet expand() is covered on concrete piece sequences',
@@ -31,6 +31,7 @@ CONFIGS = {
     'markup-text-str': {'text': 'ab c'},
     'markup-bem-comments': {'options': {'bem.enabled': True, 'comment.enabled': True}},
     'markup-context': {'context': {'name': 'ul', 'attributes': {'class': 'b'}}, 'options': {'bem.enabled': True}},
+    'markup-context-noblock': {'context': {'name': 'ul'}, 'options': {'bem.enabled': True}},
     'markup-xml': {'syntax': 'xml'},
     'markup-pug': {'syntax': 'pug'},
     'markup-haml': {'syntax': 'haml'},
@@ -44,7 +45,7 @@ CONFIGS = {
 }
 
 M_PIECES = ['a', 'Ab', '$', '$$@-', '$@^^', '$@3', '$#', '*', '*3', '>', '+', '^', '(', ')', '[', ']', '{', '}', '.', '#', '/', '=',
-            '"', "'", ' ', '${1}', '${a}', '${2:x}', '\\', '!', ':', '-', '@', '1']
+            '"', "'", ' ', '${1}', '${a}', '${2:x}', '\\', '!', ':', '-', '@', '1', '={', '${', '_m']
 C_PIECES = ['p', '10', '-', '#', 'f', '.5', '!', '+', '(', ')', ',', ':', '"', "'", '$', '@', '${1}', 'lg', ' ', '%', '/', '--', 't',
             'e', '${a}', 'x']
 
@@ -173,7 +174,7 @@ def jobs(tier):
                                        dict(L=3, lo=a, hi=min(hi, a + step), cfg=cfg), shape='W', bound='ASCII len=3',
                                        budget=6000, weight=60 ** 3))
     for cfg in CONFIGS:
-        K = 3 if (not q or cfg in ('markup-default', 'css-default')) else 2
+        K = 3 if (not q or cfg in ('markup-default', 'css-default', 'markup-context-noblock')) else 2
         pieces = C_PIECES if cfg.startswith('css') else M_PIECES
         for first in range(len(pieces)):
             out.append(Job('C07-b/pieces/%s/K=%d,p0=%02d' % (cfg, K, first), 'vf.props.c07:mk_pieces', dict(K=K, cfg=cfg, first=first),
